@@ -336,6 +336,56 @@ func searchMain(a map[string]string) {
 	for _, s := range specs {
 		runSpec("corpus", s)
 	}
+	// deterministic small-scope families first, random programs afterwards (hardening class 8)
+	// the two hard limits, tested directly
+	for _, cfg := range []int{32, 1 | 2 | 8 | 32, 63} {
+		for _, k := range []int{1024, 1025} {
+			a := &asm{}
+			for i := 0; i < k; i++ {
+				a.pushU(1)
+			}
+			a.op(0x00)
+			sp := spec{kind: "C", cfg: cfg, gas: 10000000, value: big.NewInt(0), code: a.bytes(), to: target}
+			res := doSpec(out, sp, stats)
+			evals++
+			if k == 1025 && strings.HasPrefix(res, "ok") {
+				report("stack-exceeds-1024", "a program that pushes 1025 words ran to completion", map[string]interface{}{"cfg": cfg, "code": "6001 x1025 00", "observed": res})
+			}
+			if k == 1024 && !strings.HasPrefix(res, "ok") {
+				report("stack-limit-below-1024", "a program that pushes 1024 words failed", map[string]interface{}{"cfg": cfg, "code": "6001 x1024 00", "observed": res})
+			}
+		}
+		code, _, _ := g.progDeep()
+		sp := spec{kind: "C", cfg: cfg, gas: uint64(1) << 62, value: big.NewInt(0), code: code, to: target}
+		doSpec(out, sp, stats)
+		evals++
+		frames := 0
+		for _, e := range cur.tape {
+			if strings.HasPrefix(e, "gh:") { // one per frame that gets to run code
+				frames++
+			}
+		}
+		if frames > 1025 {
+			report("depth-exceeds-1024", fmt.Sprintf("self-recursive CALL ran %d nested frames (EVM depth 0..1024 allows 1025)", frames), map[string]interface{}{"cfg": cfg, "code": hexTok(code), "gas": "2^62"})
+		}
+		if frames < 1025 {
+			report("depth-limit-below-1024", fmt.Sprintf("self-recursive CALL with 2^62 gas ran only %d nested frames", frames), map[string]interface{}{"cfg": cfg, "code": hexTok(code), "gas": "2^62"})
+		}
+	}
+	// directed boundary probe: MODEXP whose exponent length is 2^62 is priced at 8*(2^62-32)/20 = 1.8e18 gas;
+	// with 2^63 gas supplied it is payable and Run asks Go for a 2^62-byte buffer
+	{
+		in := make([]byte, 96)
+		in[31], in[95] = 1, 1
+		in[56] = 0x40 // expLen = 2^62
+		sp := spec{kind: "C", cfg: 63, gas: uint64(1) << 63, value: big.NewInt(0), input: in, to: precompileAddr(5)}
+		res := doSpec(out, sp, stats)
+		evals++
+		if strings.HasPrefix(res, "PANIC") {
+			report("modexp-operand-alloc-panics-above-1e18-gas", "top-level call to 0x05 with 2^63 gas and header (baseLen 1, expLen 2^62, modLen 1): "+res,
+				map[string]interface{}{"to": "0x05", "gas": "2^63", "input": hexTok(in), "observed": res})
+		}
+	}
 	for i := 0; i < n; i++ {
 		cfg := pickCfg(r)
 		gas := pickGas(r)
@@ -388,41 +438,6 @@ func searchMain(a map[string]string) {
 			runSpec("top-create", spec{kind: "K", cfg: cfg, gas: gas, value: value, code: code, aux: aux})
 		} else {
 			runSpec(kind, spec{kind: "C", cfg: cfg, gas: gas, value: value, code: code, input: input, aux: aux, aux2: aux2, to: target})
-		}
-	}
-	// the two hard limits, tested directly
-	for _, cfg := range []int{32, 1 | 2 | 8 | 32, 63} {
-		for _, k := range []int{1024, 1025} {
-			a := &asm{}
-			for i := 0; i < k; i++ {
-				a.pushU(1)
-			}
-			a.op(0x00)
-			sp := spec{kind: "C", cfg: cfg, gas: 10000000, value: big.NewInt(0), code: a.bytes(), to: target}
-			res := doSpec(out, sp, stats)
-			evals++
-			if k == 1025 && strings.HasPrefix(res, "ok") {
-				report("stack-exceeds-1024", "a program that pushes 1025 words ran to completion", map[string]interface{}{"cfg": cfg, "code": "6001 x1025 00", "observed": res})
-			}
-			if k == 1024 && !strings.HasPrefix(res, "ok") {
-				report("stack-limit-below-1024", "a program that pushes 1024 words failed", map[string]interface{}{"cfg": cfg, "code": "6001 x1024 00", "observed": res})
-			}
-		}
-		code, _, _ := g.progDeep()
-		sp := spec{kind: "C", cfg: cfg, gas: uint64(1) << 62, value: big.NewInt(0), code: code, to: target}
-		doSpec(out, sp, stats)
-		evals++
-		frames := 0
-		for _, e := range cur.tape {
-			if strings.HasPrefix(e, "gh:") { // one per frame that gets to run code
-				frames++
-			}
-		}
-		if frames > 1025 {
-			report("depth-exceeds-1024", fmt.Sprintf("self-recursive CALL ran %d nested frames (EVM depth 0..1024 allows 1025)", frames), map[string]interface{}{"cfg": cfg, "code": hexTok(code), "gas": "2^62"})
-		}
-		if frames < 1025 {
-			report("depth-limit-below-1024", fmt.Sprintf("self-recursive CALL with 2^62 gas ran only %d nested frames", frames), map[string]interface{}{"cfg": cfg, "code": hexTok(code), "gas": "2^62"})
 		}
 	}
 	evals += searchPrecompiles(g, n/2)
